@@ -13,6 +13,10 @@ CHECKS = {
    text="Lean theorems over all file contents: numbering+frame (C13_numbering_frame), end of file (C13_eof), idempotence (C13_idempotent; hypotheses: digits-only rule id, no line with both keys, no CR CR LF — the last is known finding D22 with a decide-proved witness), --check (C13_check_iff). "
         "Tie: util.processYaml (real code, in-process via verif hook) vs the compiled model on generated YAML files, byte-exact; renumber-tests binary on sandbox trees for check/write behaviour.",
    design="§7 C13", technique="Lean 4 proof (list induction) on a hand-written model + differential correspondence with the Go code"),
+ "C01": dict(
+   text="PARTIAL. Proved (Lean, all programs of any nesting depth, every engine / configuration / stash): C01_assemble_refines_tree (the flat line-by-line stack machine of Operator.assemble — processor stack, startPreprocessor, endPreprocessor, Consume — computes exactly what a recursive tree evaluator without any stack computes: a block's body runs in a fresh processor and its completed result is handed to the enclosing one; mutual structural induction over the item tree), C01_generate_is_tree_evaluation, the equations of the plain reading (C01_entries_accumulate, C01_mark_closes_segment, C01_store, C01_recall, C01_block_result), and C01_segments_language: under two explicit hypotheses about the external engine (a successful join denotes the union of its lines; a concatenation of groups denotes the product) a block of k segments denotes the product over segments of the union over entries, for any k and any number of entries. NOT proved: the language statement for stores/recalls/nesting/cmdline blocks, prefixes/suffixes, and that the final simplification and the six clean-up passes preserve the language — this needs a semantics of regex text and laws of rassemble-go / regexp/syntax. "
+        "Tie: parse.run, gen.run (real code vs compiled model, byte-exact, real Join answers fed to the model). Search/oracle: the generated regex vs an independent naive evaluator of the program (plain.go), languages compared by the Go-side regex oracle (sample strings from both syntax trees plus mutations, both directions); shrinker; engine-caused exceptions D17, D24, D25, D26 are listed known findings with narrow coded triggers.",
+   design="§0.3 C01", technique="Lean 4 proof (refinement of the stack machine to a tree evaluator; language of segment blocks under explicit engine-law hypotheses) + differential correspondence + language oracle on the real engine"),
  "C08": dict(
    text="Lean theorems on the tree-level model Crs.Cli: C08_format_each / C08_renumber_each / C08_copyright_each (--all leaves in every file exactly what the per-file function leaves in it), C08_format_perm / C08_renumber_perm (independent of the traversal order), C08_run_ignores_globals (a run's regex does not depend on the processor stack and stash earlier runs left behind: new context and stack reset per file), C08_update_inputs_untouched + C08_update_regex_same (a successful update changes only the rules file, which is no input of any assembly: every file's regex in an --all run is the regex of a single run on the original tree). NOT proved: commutation of the rules-file splices of different rules (any order at the level of rules-file bytes). "
         "Tie (K10): cli.updateAll / cli.formatAll — the whole tree and exit status the model predicts vs what the real binary leaves, incl. leak scenarios (stored expression recalled without being stored, definition used without being defined, flags/prefix/suffix, unclosed block; the failing file last in walk order). Oracle: --all vs single invocations in random orders on the binary (tree bytes, compare verdict lines, exit status).",
@@ -88,7 +92,7 @@ CHECKS = {
    design="§7 C07", technique="Lean 4 proof (partial: flat definitions) + differential correspondence against Go's random map order + permutation oracle"),
 }
 
-NOT_YET = "check not built yet (work in progress in this round; planned per DESIGN.md §7)"
+NOT_YET = "check not built yet"
 
 props = [json.loads(l)["id"] for l in open("/verif/properties.jsonl")]
 m = {
